@@ -488,6 +488,10 @@ func parsePayload(l int64, c []byte, pageSize int, maxInPagePayload int) (cellPa
 	}
 
 	if int64(inPageBytes) == l {
+		if int64(len(c)) < l {
+			// the cell claims more inline payload than there are bytes left
+			return cellPayload{}, ErrCorrupted
+		}
 		return cellPayload{l, c, 0}, nil
 	}
 
